@@ -73,6 +73,11 @@ CHECKS.update({
          "TLC explores every interleaving of sender writes and reads whose lengths come from a cut set covering 'inside the length prefix', 'inside the body', 'exactly at a boundary' and 'several frames at once', for frame families with real body lengths at the minimum and around the reader's 4096-byte buffer. Simulated behaviours are replayed byte-exactly on the real tcpConnectionActor (real decoder, real HandleRemotingEnvelop, real receiving actor). Two real systems over loopback TCP add concurrency, both directions, Ask/Reply and payloads up to 1 MiB (4 MiB thorough). DeliveryMon: exactly once, in order per sender/receiver pair, intact, replies reach the asker, everything delivered on a healthy link.",
          "Each frame is written by one Write call; kernel TCP segmentation is represented at the Read boundary; loopback runs sample schedules (not exhaustive).",
          "§5 C11"),
+ "C14": ("model_checking",
+         "TLA+ specs Link (sender retry loop vs refused/cut/returning peer, TLC exhaustive) and Framing with connection resets (TLC); reset behaviours replayed on the real connection actor over a scripted net.Conn; bad-frame streams, an unreachable peer and a restarting fake peer against the real sending mailbox; traces validated by TLC against FaultMon",
+         "TLC checks on Link that what the remote actor receives is a strictly increasing subsequence, nothing is both delivered and dead-lettered, every message is accounted for and the sender always gets through; on Framing with resets that only completely received frames are delivered. Simulated reset behaviours (cut inside a prefix, inside a body, at a boundary) are replayed byte-exactly on the real reader; streams with undecodable or over-long frames, a peer that is unreachable (ReconnectLimit 0-2) and a peer process that dies and returns exercise the real mailbox. FaultMon: subsequence / intact / no duplicate, later frames delivered after an undecodable one, dead letter exactly once for messages that could not be written, recovery after the peer returns, Tell returns promptly.",
+         "The byte at which a kernel write fails cannot be controlled: messages accepted by the kernel and lost with the connection are tolerated; real time with wide margins for the sender-side scenarios; KNOWN FINDING KF-C14-1 (Tell blocks the caller while the peer is unreachable).",
+         "§5 C14"),
 })
 
 NOT_YET = {
